@@ -105,13 +105,20 @@ class ProofUnit(Unit):
 
     def run(self, ctx):
         from pyvc import verify as V
+        from pyvc.symexec import Unsupported
         made = self.make(ctx)
         runs = made if isinstance(made, list) else [made]
         results = []; functions = []; assumptions = []; samples = []; stats = {"paths": 0, "symexec_s": 0.0, "solver_s": 0.0}
         oracle = self.oracle() if isinstance(self.oracle, type) else self.oracle
         for r in runs:
             label = r.get("label", "")
-            rep = V.verify(r["contract"], r.get("callees"), r.get("spec_functions"), r.get("options"))
+            try:
+                rep = V.verify(r["contract"], r.get("callees"), r.get("spec_functions"), r.get("options"))
+            except (V.BindingError, Unsupported) as e:
+                # the contract cannot be bound to / the engine cannot follow the current source: undecided for the deductive part;
+                # the native oracle below still runs (bounded), so a real violation is not hidden behind the tool limit
+                results.append(Result(self.uid + "/bind" + (" [%s]" % label if label else ""), "proof", UNDECIDED, backend="ast", detail="%s: %s" % (type(e).__name__, e), function=r["contract"].qualname))
+                continue
             V.discharge_all(rep, both=ctx.thorough)
             sha, l0, l1 = rep["source"]
             functions.append({"function": "cutplace." + rep["function"], "file": rep["file"], "lines": [l0, l1], "sha256_16": sha, "case": label,
